@@ -19,7 +19,7 @@ TRUSTED_BASE = [
 ]
 
 # hook commits in /repo (guarded by cargo feature 'verif')
-HOOK_COMMITS = ["0b8985f", "1141b44", "fd41ccb", "3a8a973", "0f4e986", "94a03e4", "51650e6", "c177853", "4219d4e", "8a92a16", "55e7139"]
+HOOK_COMMITS = ["0b8985f", "1141b44", "fd41ccb", "3a8a973", "0f4e986", "94a03e4", "51650e6", "c177853", "4219d4e", "8a92a16", "55e7139", "882bfe4"]
 # H3b (repo_patches/H3b-cursor-per-model.patch: CursorLock as a value; with the repair F21,
 # repo_patches/F21-cursor-per-model.patch, the per-model accessors Ddnnf::verif_reset_enumeration_cursor /
 # verif_enumeration_cursor_snapshot replace the global reset / snapshot functions of H2/H3):
